@@ -1,10 +1,12 @@
 //! C15: id / flag codecs round-trip and their parsers are total.
+#[cfg(not(kani))]
+use crate::kani;
 use emit::span::{SpanId, TraceId};
 
 /// to_hex . try_from_hex_slice = id, for every non-zero u128 (loops bounded by the 32 hex digits).
-#[kani::proof]
-#[kani::unwind(34)]
-fn c15_trace_id_hex_roundtrip() {
+#[cfg_attr(kani, kani::proof)]
+#[cfg_attr(kani, kani::unwind(34))]
+pub(crate) fn c15_trace_id_hex_roundtrip() {
     let v: u128 = kani::any();
     kani::assume(v != 0);
     let id = TraceId::from_u128(v).unwrap();
@@ -15,9 +17,9 @@ fn c15_trace_id_hex_roundtrip() {
     kani::cover!(true);
 }
 
-#[kani::proof]
-#[kani::unwind(18)]
-fn c15_span_id_hex_roundtrip() {
+#[cfg_attr(kani, kani::proof)]
+#[cfg_attr(kani, kani::unwind(18))]
+pub(crate) fn c15_span_id_hex_roundtrip() {
     let v: u64 = kani::any();
     kani::assume(v != 0);
     let id = SpanId::from_u64(v).unwrap();
